@@ -241,6 +241,16 @@ def make_snap(params, part, nparts):
     return h
 
 
+def make_during(params, part, nparts):
+    from props import C05
+
+    def h(f: int, e: int, m: int, w: int):
+        prog = [pick(f, 2), pick(e, len(C05.DU_ENTRY)), pick(m, len(C05.DU_MUT)), pick(w, 2)]
+        reached(tuple(prog), dict(family='during', program=repr(prog)))
+        native(differential, 'during', prog)
+    return h
+
+
 def make_kw(params, part, nparts):
     NT = len(TP.KW_TARGETS)
 
@@ -422,6 +432,9 @@ HARNESSES = [
        'generation-snapshot programs: chains of 2..4 VerifyingAdapterRegistry, one mutation (register / unregister / subscribe / unsubscribe / '
        'added base) in any registry behind the front one, caches warm or cold; trace = 8 entry points of the front registry before and '
        'after, and of a chain built afterwards', qb=60, tb=120, parts=4),
+    _h('d_during', make_during, {}, {},
+       'programs in which a looked-up specification\'s subscribe() changes the registry while the lookup is in progress (2 flavours x 6 entry '
+       'points x 5 mutations x caches empty / holding another key); trace = the interrupted answer and the same call repeated', qb=30, tb=60, parts=1),
     _h('d_kw', make_kw, {}, {},
        'call-shape programs: 21 callables the accelerator implements (6 lookup entry points x 2 registry flavours, Interface.__call__, '
        '__adapt__, isOrExtends, providedBy / implementedBy as methods and functions, getObjectSpecification, changed) x every split of the '
